@@ -12,6 +12,18 @@ by exactly the marks made, at every depth of the nested recursion — a forward 
 still counts its CLIENT_CLOSED / FAILED_MESSAGE / RTMA_LOG frame), `counts_exact_always` (after any history both counter
 tables *are* the tally of the frames handled outside a statistics send since the last report of their kind),
 `counts_exact_per_type`, `history_only_grows`.
+
+Link theorems, for every history (`Proofs/ManagerStatsSim.lean` and the other `Proofs/ManagerStats*.lean`: a simulation
+between the model state and the abstract state `Spec.round` computes from the model's own events of each round — clocks,
+who is alive, id / pid / connected / logger flag of every table entry, its subscriptions against the model's reverse
+index, the writable set, the tallies of client frames = the client marks of the ghost history since the last report, the
+per-observer tallies as lower bounds): `spec_timing_clause_passes_on_model` (every clause of `Spec.checkTiming`, u16 wrap
+included, and "no TIMING_MESSAGE before its period"), `spec_traffic_clause_passes_on_model` (every clause of
+`Spec.checkTraffic`, the subscribers that are owed a report included), `spec_round_adds_no_c18_error_on_model`, and the
+per-property corollary `spec_c18_clauses_pass_on_model_run`: `Spec.runSpec` on the driver's `modelRun` reports no C18 error,
+whatever the rounds.  `model_and_spec_state_agree` is the simulation itself.  Hypotheses (documented at the theorems, each
+with an `example` on a non-trivial history): `CfgOK`, `cfg.fuel = 0`, `MgrNotAll`, `OrderGood`, `RoundOK`,
+`0 < MESSAGE_TRAFFIC_SIZE`, "-1 is no manager type", `NoWrap`.
 -/
 namespace Pyrtma.C18
 open Pyrtma.Mgr
